@@ -71,6 +71,17 @@ class Exec(ExprMixin, CallMixin, BuiltinMixin, StmtMixin, ExecBase):
                     raise BindError("parameter %s of %s is not described by the contract" % (p, c.qn))
                 env[p] = self.default_value(dflt, mod, c.qn, p, st, Cx(mod, acc=[]))
         self.cur_fn = self.short(c.qn) + ("#" + c.key.split("#")[1] if "#" in c.key else "")
+        if kind != "module" and c.local_sorts:
+            # a contract that speaks about a local (final_<x>) binds only while the function still assigns a local of that name:
+            # after a rename the contract is undecided, not violated
+            stored = {n.id for n in ast.walk(node) if isinstance(n, ast.Name) and isinstance(n.ctx, ast.Store)}
+            stored |= {a.arg for a in ast.walk(node) if isinstance(a, ast.arg)}
+            ghosts = set()
+            for gl in list(c.ghost_init or []) + [x for v in (c.ghost or {}).values() for x in v]:
+                ghosts.add(gl.split("=", 1)[0].strip())
+            for ln in c.local_sorts:
+                if ln not in stored and ln not in ghosts and not ln.startswith("_"):
+                    raise BindError("contract of %s mentions the local `%s`, which the function no longer assigns" % (c.qn, ln))
         for p in c.params:
             if p not in fparams and kind != "module":
                 raise BindError("contract parameter %s is not a parameter of %s" % (p, c.qn))
